@@ -68,3 +68,12 @@ func Levels(top []*Node) int {
 }
 
 type Node struct{ Kids []*Node }
+
+// Sample / AbsoluteGuard: positive control for the dimension rule (C13/R7): a spread compared with an absolute constant.
+type Sample struct{ Values []float64 }
+
+func (s Sample) StdDev() float64 { return s.Values[0] }
+
+func AbsoluteGuard(a, b Sample) bool {
+	return a.StdDev() < 1e-9 && b.Values[0]*b.StdDev() > 2.5
+}
